@@ -204,6 +204,9 @@ func (p *Program) VerifyFunc(fc *FuncContract) (res *FuncResult) {
 					"declared pure: memory that existed at entry is unchanged ("+k+")", false)
 			}
 		}
+		if !fc.Pure && !fc.Trusted && fc.Assigns != "" {
+			x.frameObligations(fr, ce, fc, r, ri)
+		}
 		for i, e := range fc.Ensures {
 			lab := fmt.Sprintf("#%d", i)
 			if e.Label != "" {
@@ -699,4 +702,63 @@ func (x *Exec) useAll(ce *CEnv, name string) {
 		x.hyps = append(x.hyps, q)
 	}
 	x.note("assumes lemma " + name + " in quantified form (proved separately as its own obligation)")
+}
+
+// frameObligations: a function with an `assigns` clause changes, among the
+// memory that existed at entry, only what the clause lists (whole heaps H(T) /
+// HS(T), single cells *p, single elements s[i]).
+func (x *Exec) frameObligations(fr *Frame, entry *CEnv, fc *FuncContract, r *retEdge, ri int) {
+	whole := map[string]bool{}
+	cells := map[string][]*assignTarget{}
+	ce := &CEnv{x: x, fr: fr, st: fr.entry, old: fr.entry, vars: entry.vars, lets: entry.lets, guard: x.b.True, fc: fc}
+	for _, k := range strings.Fields(strings.ReplaceAll(fc.Assigns, ",", " ")) {
+		if as := x.assignLoc(ce, k); as != nil {
+			cells[as.key] = append(cells[as.key], as)
+			continue
+		}
+		x.registerGhost(k)
+		whole[x.resolveHeapName(ce, k)] = true
+	}
+	var keys []string
+	for k := range r.st.heaps {
+		keys = append(keys, k)
+	}
+	sort.Strings(keys)
+	a0 := x.b.Const("alloc0", "Int")
+	for _, k := range keys {
+		if strings.HasPrefix(k, "G_") || strings.HasPrefix(k, "GA_") || whole[k] {
+			continue
+		}
+		h1 := r.st.heaps[k]
+		h0 := x.initHeap(k)
+		if h1 == h0 {
+			continue
+		}
+		x.qseq++
+		rv := x.b.BoundVar(fmt.Sprintf("r!f%d", x.qseq), "Int")
+		inner := strings.TrimSuffix(strings.TrimPrefix(x.heapSorts[k], "(Array Int "), ")")
+		old := x.b.And(x.b.Cmp("<", x.b.Int(0), rv), x.b.Cmp("<", rv, a0))
+		var body *smt.Term
+		if strings.HasPrefix(k, "HS_") && len(cells[k]) > 0 {
+			jv := x.b.BoundVar(fmt.Sprintf("j!f%d", x.qseq), "Int")
+			es := strings.TrimSuffix(strings.TrimPrefix(inner, "(Array Int "), ")")
+			var notAllowed []*smt.Term
+			for _, as := range cells[k] {
+				notAllowed = append(notAllowed, x.b.Not(x.b.And(x.b.Eq(rv, as.ref), x.b.Eq(jv, as.idx))))
+			}
+			body = x.b.Implies(x.b.And(append([]*smt.Term{old}, notAllowed...)...),
+				x.b.Eq(x.b.App("select", es, x.b.App("select", inner, h1, rv), jv), x.b.App("select", es, x.b.App("select", inner, h0, rv), jv)))
+			x.oblige("frame", fmt.Sprintf("frame(%s)@ret%d", k, ri), r.cond, x.b.Quant("forall", []*smt.Term{rv, jv}, body), r.pos,
+				"assigns: only the listed elements of "+k+" change", false)
+			continue
+		}
+		var notAllowed []*smt.Term
+		for _, as := range cells[k] {
+			notAllowed = append(notAllowed, x.b.Not(x.b.Eq(rv, as.ref)))
+		}
+		body = x.b.Implies(x.b.And(append([]*smt.Term{old}, notAllowed...)...),
+			x.b.Eq(x.b.App("select", inner, h1, rv), x.b.App("select", inner, h0, rv)))
+		x.oblige("frame", fmt.Sprintf("frame(%s)@ret%d", k, ri), r.cond, x.b.Quant("forall", []*smt.Term{rv}, body), r.pos,
+			"assigns: memory that existed at entry is unchanged outside the listed locations ("+k+")", false)
+	}
 }
